@@ -3,45 +3,45 @@
 import json
 P = {
  "C01": ("process monitor (exit status, panic text and stack, per-case CPU clock) over isolated child processes fed hostile, mutated, decorated and generated inputs",
-         "no panic, fatal runtime error or CPU-budget overrun on ~57 k (quick) / ~1.5 M (thorough) logged cases: mutated generated sets, 42 hazard and revision-layout templates, pathological lexical texts up to the size bound, the repository's own YANG corpus"),
+         "no panic, fatal runtime error or CPU-budget overrun on ~72 k (quick) / ~1.4 M (thorough) logged cases: mutated and decorated generated sets, 42 hazard and revision-layout templates, pathological lexical texts up to the size bound, the repository's own YANG corpus; after every load the entry-level and node-level read API is walked"),
  "C02": ("reference-model monitor: independent RFC 7950 s.6 reader vs yang.Parse on bounded-exhaustive token-alphabet enumerations and grammar-directed random texts",
          "accept/reject verdict, keywords, argument strings, nesting and order agree on every string up to the length bound over the token alphabets (whole input and four framings; 2.8 M quick, ~100 M thorough, each space covered completely) and on random texts with layout noise"),
  "C03": ("reflection walker pairing every source statement with exactly one AST node by pointer identity + must-reject oracle derived from goyang's own keyword table",
-         "random statement trees (50 k quick / 1.5 M thorough) with deliberate unknown keywords, duplicates, missing mandatory substatements, prefixed and degenerate extension keywords, non-module top-level statements"),
+         "random statement trees (300 k quick / 6 M thorough) with deliberate unknown keywords, duplicates, missing mandatory substatements, prefixed and degenerate extension keywords, non-module top-level statements"),
  "C04": ("invariant walker over the live Entry forest at the quiescent point after a clean Process (pointer identity, global visited set, Dir and rpc input/output) + expected-error oracle of the reference resolver + late-fault templates",
-         "generated module sets (20 k quick / 400 k thorough) and 13 late-fault templates; every node reached is checked for name/key, parent pointer, single reachability, kind vs children/type/list attributes, choice children, leftover augments, recorded errors"),
+         "generated module sets (30 k quick / 400 k thorough), 13 late-fault templates and faults in the older of two revisions; every node reached is checked for name/key, parent pointer, single reachability, kind vs children/type/list attributes, choice children, leftover augments, recorded errors"),
  "C05": ("metamorphic monitor: R repetitions x P load-order permutations on fresh sets compared through a canonical dump; independent (file,line,column) order and duplicate check on every error list; byte comparison of repeated CLI runs",
-         "nine tie/conflict shapes and generated sets with up to three injected faults, 48 x <=6 executions per set (quick), 128 x <=24 (thorough); map iteration orders are sampled by repetition, not enumerated"),
+         "eleven tie/conflict shapes and generated sets with type errors and up to three injected faults (650 sets quick / 20 k thorough), 48 x <=6 executions per set (quick), 128 x <=24 (thorough); map iteration orders are sampled by repetition, not enumerated"),
  "C06": ("reference-model monitor (reference expansion of uses with lexical binding) + sharing walker + independence monitor (with/without a module that changes one instance)",
-         "generated sets with groupings at every scope, equal grouping names in different modules, nested uses, childless directories; independence family with deviations/augments of one of three instances"),
+         "30 k / 400 k generated sets with groupings at every scope, equal grouping names in different modules (twins sorting before and after), nested uses, childless directories, if-feature lists and extension statements; independence family (9 k / 150 k): one copy is changed by a deviation/augment or mutated through every exported slice and map, all other copies and the cached grouping must not move"),
  "C07": ("reference-model monitor (reference graft of augments to a fixpoint, expected errors) + offline checker over the hook trace of augment lookups and merges (exactly-once specification)",
          "generated sets with chained augments across modules and submodules in shuffled load order; per augment statement the trace must be skip* found merge, once; late-fault templates on the error side"),
  "C08": ("reference application of RFC 7950 7.20.3 in written order + frame monitor by path (run with vs without the deviating modules) + offline checker over the deviate hook trace (written order)",
-         "20 k (quick) / 300 k (thorough) base/deviation cases, each repeated 16/48 times: values at the target, nine expected-error classes, everything else unchanged, ignore-not-supported option, two deviating modules"),
+         "20 k (quick) / 300 k (thorough) base/deviation cases, each repeated 16/48 times: targets at top level, in containers, lists, cases, groupings used twice, augments; values at the target, nine expected-error classes, everything else unchanged, ignore-not-supported option, two deviating modules, an older revision of the deviating module"),
  "C09": ("reference-model monitor: lexical typedef binder and derived-attribute inheritance computed from the abstract model",
-         "generated sets with typedefs at all scopes, shadowing, chains, patterns added at several use sites, prefixes of imported modules and of their submodules; base kind, units, default and accumulated patterns of every leaf compared"),
+         "30 k / 400 k generated sets with typedefs at all scopes, shadowing, chains, patterns (also posix-pattern) added at several use sites, enums, leafref paths, unions, fraction-digits, integer ranges, empty units, prefixes of imported modules and of their submodules; every attribute of the resolved type of every leaf compared"),
  "C10": ("exact interval-algebra reference (math/big) vs ParseRanges*, Contains, typedef chains through schemas, and the library's child-restriction routine reached through the verif hook accessor",
-         "all one- and two-part restrictions over a 27-value boundary grid (0.57 M), 50 k / 1 M typedef chains over ten base types incl. decimal64 at every fraction-digits, 0.4 M / 20 M child restrictions against random previously restricted parents"),
+         "all one- and two-part restrictions over a 27-value boundary grid (0.57 M), 150 k / 1 M typedef chains over ten base types incl. decimal64 at every fraction-digits and unions, 1 M / 20 M child restrictions against random previously restricted parents, a decimal grid over all fraction-digits, malformed restrictions incl. sign forms"),
  "C11": ("graph-closure reference computed from the generated derivation graph + repetition monitor on the order of Values + pointer identity of identityref bases",
-         "5 k (quick) / 100 k (thorough) random DAGs over 1-4 modules and their submodules, equal names and equal prefixes across modules, small import-prefix pool, each loaded 8/24 times in shuffled order"),
+         "20 k (quick) / 400 k (thorough) random DAGs over 1-4 modules and their submodules, equal names and equal prefixes across modules, small import-prefix pool, identityrefs through typedefs, derivation chains of 150-400, cycles and dangling bases on the error side, each loaded 8/24 times in shuffled order"),
  "C12": ("reference-model monitor: config inheritance and namespace / instantiating-module attribution computed from the abstract model, compared on every node",
          "generated sets combining explicit config with uses, augment (also into choices and absent rpc input/output), include, choice/case, rpc/action/notification across modules"),
  "C13": ("four monitors: revision table under all load orders (with modules.add trace), include-by-revision binding, file chooser over generated directory layouts (with file.read trace), include == inline through canonical dumps",
-         "2.8 k header sets x all load orders, 0.7 k include sets x all orders, 2 k directory layouts with near-miss names, 10 k random splits into submodules (quick; x20 thorough)"),
+         "8 k header sets x all load orders (prefix and path lookups after each), include sets x all orders, 6 k directory layouts with near-miss names and symbolic links, 25 k random splits into up to five submodules (quick; x7 thorough)"),
  "C14": ("RFC 7950 9.6.4.2/9.7.4.2 assignment reference in exact arithmetic vs Set/SetNext call sequences and schemas",
-         "every member sequence up to length 3 (quick) / 4 (thorough) over 3 names x {implicit, 14 boundary values}, every 50th also through a module; explicit literals far beyond 64 bits through modules"),
+         "every member sequence up to length 3 (quick) / 4 (thorough) over names incl. the empty one x {implicit, 14 boundary values}, continuing after rejected calls (which must assign nothing), every 20th / 200th also through a module; explicit literals far beyond 64 bits, non-numeric, empty and signed-zero arguments through modules"),
  "C15": ("math/big reference for String, ParseInt, ParseDecimal, Less, Equal, Int, FromInt/FromUint",
          "boundary grid x sign x fraction-digits: round trips and Int for every number, Less/Equal for every ordered pair (2.2 M quick / 36 M thorough), literals with 0..300 fraction digits at every precision, random triples"),
  "C16": ("position oracle from the reference reader (1-based line, character column) + single-fault injection with a designated position",
-         "40 k (quick) / 2 M (thorough) random layouts with tabs, multi-byte characters, comments and single-quoted strings of up to five lines, CR LF; eight lexical/syntactic fault kinds; 12 semantic fault kinds whose error must name the exact injected statement"),
+         "150 k (quick) / 2 M (thorough) random layouts with tabs, multi-byte characters, comments and single-quoted strings of up to five lines, CR LF; eight lexical/syntactic fault kinds; 24 k / 200 k sets with one of 12 semantic fault kinds whose error must name the exact injected statement; 1.5 k / 30 k directory layouts in which every position must name the file that was opened"),
  "C17": ("pointer-identity round trip of Entry.Find against the reference tree, on trees that already matched the reference",
-         "60 sampled (start, target) pairs per generated set: absolute prefixed spelling from the start node's defining module, relative spelling through the common ancestor, one bogus step (must return nothing); input and output of every rpc and action looked up (Parent, Path, way back)"),
+         "60 sampled (start, target) pairs per generated set (30 k / 400 k sets): absolute prefixed spelling from the start node's defining module, relative spelling through the common ancestor, one bogus step (must return nothing); input and output of every rpc and action looked up (Parent, Path, way back); lookups on trees held from before a reload; import prefixes that collide with the owner's prefix (1.5 k / 30 k header sets)"),
  "C18": ("history runner vs batch oracle: canonical dump and snapshots of the unexported typedef/identity dictionaries (verif accessors) of the live set compared with a fresh set after every process step",
-         "6 k (quick) / 150 k (thorough) generated histories of loads, failed loads (four kinds), process, re-process and reads; 18 kinds of semantic faults in good texts; late-arriving owners, imports and newer revisions"),
+         "12 k (quick) / 300 k (thorough) generated histories of loads, failed loads (four kinds, and texts with several top-level statements of which one is rejected), process, re-process, reads and cache clears; 22 kinds of semantic faults in good texts; late-arriving owners, imports, submodules with identities, namespace twins and newer revisions"),
  "C19": ("Go race detector (worker built with -race, every report is a violation) + concurrent-vs-sequential result equality, schedules perturbed at tag-guarded yield points",
-         "400 (quick) / 12 k (thorough) rounds of 16 goroutines released from a barrier: independent pipelines, shared readers (first-time namespace lookups included), mixed; arrival counts and distinct interleaving signatures in the evidence"),
+         "400 (quick) / 12 k (thorough) rounds of 16 goroutines released from a barrier: independent pipelines (every fifth with faulty texts), shared readers (first-time namespace lookups, absolute and io lookups included), mixed; 48 / 480 cold-start processes in which the very first use of process-wide state is concurrent; arrival counts and distinct interleaving signatures in the evidence"),
  "C20": ("fault enumeration: instrumented underlying io.Writer with a byte budget vs reference renderer and per-byte provenance map",
-         "every text up to the length bound x 5 prefixes x every division into Write calls (a seventh with empty writes interleaved) x every byte budget 0..len(output): 1.8 M (quick) / ~120 M (thorough) cases, the stated space covered completely"),
+         "every text up to the length bound x 7 prefixes x every division into Write calls (a seventh with empty writes interleaved) x every byte budget 0..len(output), the stated space covered completely; writes of 64 KiB-1 MiB; stacked indenting writers; underlying writers that break the io.Writer contract"),
 }
 LEVEL = {"C20": "fault_enumeration"}
 checks = []
